@@ -33,7 +33,8 @@
 //   R5 lastState() survives stop()/start() (header silent; not demanded otherwise): Ref mirrors the code.
 //   R6 self transitions are external (exit + enter).
 //
-// argv: <part> <nparts> <machine cap> <seq depth> <max nesting depth> [<file for trace hashes>] [flat]
+// argv: <part> <nparts> <machine cap> <seq depth> <max nesting depth> [<file for trace hashes>|-] [flat]
+//       merge <hash files...>   (prints the number of distinct trace hashes over all processes)
 #include "hist/hist.h"
 #include <tbox/flow/state_machine.h>
 #include <cstdint>
@@ -291,7 +292,8 @@ struct Ref {
 static std::string show_op(const Op &o) { std::string s = CALLN[o.call]; if (o.reent >= 0) s += std::string("+every-action-calls:") + CALLN[o.reent]; return s; }
 static std::string show_hist(const std::vector<Op> &h) { std::string s; for (auto &o : h) { if (!s.empty()) s += ' '; s += show_op(o); } return s.empty() ? "<empty>" : s; }
 static int tok_depth(const std::string &t) { int n = t[0] - 'a'; return n >= 0 && n < (int)G.nodes.size() ? G.nodes[n].depth : 0; }
-static int count_sub_exits(const std::string &tr) { int c = 0; size_t p = 0; while (p < tr.size()) { size_t q = tr.find(' ', p); if (q == std::string::npos) q = tr.size(); if (q > p + 1 && tr[p] != 'a' && tr[p + 1] == 'x') c++; p = q + 1; } return c; }
+// number of exit / enter actions of sub-machines (nodes b,c,..) in a trace segment
+static int count_sub(const std::string &tr, char kind) { int c = 0; size_t p = 0; while (p < tr.size()) { size_t q = tr.find(' ', p); if (q == std::string::npos) q = tr.size(); if (q > p + 1 && tr[p] != 'a' && tr[p + 1] == kind) c++; p = q + 1; } return c; }
 
 struct EvalOut { std::string canon, viol; uint64_t trace_hash; std::string trace; };
 static bool g_keep_trace = false;
@@ -324,7 +326,8 @@ static EvalOut evaluate(int top, const std::vector<Op> &hist) {
     else if (!same || !G.balance_viol.empty()) {
       bool sub_left = false;     // a sub-machine the reference has stopped is still running / was not exited
       for (size_t k = 1; k < nn; k++) if (G.sm[k]->isRunning() && !REF.running[k]) sub_left = true;
-      if (count_sub_exits(t2) > count_sub_exits(t1)) sub_left = true;
+      if (count_sub(t2, 'x') > count_sub(t1, 'x')) sub_left = true;                               // its exit action is missing
+      if (op.call == RESTART && count_sub(t2, 'n') > count_sub(t1, 'n')) sub_left = true;          // or it was not started again because it never stopped
       if ((op.call == STOP || op.call == RESTART) && sub_left) sig = std::string(CALLN[op.call]) + "-leaves-active-submachine-running";
       else if (!G.balance_viol.empty()) {
         int lvl = 0; for (size_t k = 0; k < nn; k++) for (int s = 0; s < 4; s++) if (G.cnt[k][s] != 0) lvl = std::max(lvl, G.nodes[k].depth);
@@ -335,6 +338,9 @@ static EvalOut evaluate(int top, const std::vector<Op> &hist) {
         while (true) { int c = G.sm[k]->currentState(); if (!G.sm[k]->isRunning() || c < 1) break; int sb = G.nodes[k].sub[c]; if (sb < 0) break; if (!G.sm[sb]->isRunning()) { stopped_sub = true; break; } k = sb; }
         if ((op.call == RUN1 || op.call == RUN2) && t1.empty() && r1 == 0 && stopped_sub) sig = "run-ignored-after-submachine-terminated";
         else {
+          // "-reentrant" only if the divergence is about the inner calls (traces agree once the !<result> marks are removed ... then they differ only there)
+          auto strip = [](const std::string &t) { std::string o; for (size_t i = 0; i < t.size(); i++) { if (t[i] == '!') { i++; continue; } o += t[i]; } return o; };
+          bool reent_specific = op.reent >= 0 && strip(t1) == strip(t2) && r1 == r2 && o1 == o2;
           // first differing token
           std::string a = "end", b = "end"; size_t p = 0, q = 0; bool found = false;
           while (p < t1.size() || q < t2.size()) {
@@ -352,7 +358,7 @@ static EvalOut evaluate(int top, const std::vector<Op> &hist) {
             p = pe + 1; q = qe + 1;
           }
           if (!found) { if (r1 != r2) a = b = "return-value"; else a = b = "observers-after-call"; }
-          sig = std::string("diverge-") + (op.call == RUN1 || op.call == RUN2 ? "run" : CALLN[op.call]) + (op.reent >= 0 ? "-reentrant" : "") + "-real:" + a + "-ref:" + b;
+          sig = std::string("diverge-") + (op.call == RUN1 || op.call == RUN2 ? "run" : CALLN[op.call]) + (reent_specific ? "-reentrant" : "") + "-real:" + a + "-ref:" + b;
         }
       }
     }
@@ -371,6 +377,11 @@ static EvalOut evaluate(int top, const std::vector<Op> &hist) {
 }
 
 int main(int argc, char **argv) {
+  if (argc > 1 && !strcmp(argv[1], "merge")) {     // union of the per-process trace-hash files -> number of distinct traces
+    std::vector<uint64_t> all; for (int i = 2; i < argc; i++) { FILE *f = fopen(argv[i], "rb"); if (!f) continue; uint64_t b[4096]; size_t n; while ((n = fread(b, 8, 4096, f)) > 0) all.insert(all.end(), b, b + n); fclose(f); }
+    std::sort(all.begin(), all.end()); size_t d = std::unique(all.begin(), all.end()) - all.begin();
+    printf("@STAT distinct_traces=%zu\n", d); return 0;
+  }
   size_t part = argc > 1 ? atoi(argv[1]) : 0, nparts = argc > 2 ? atoi(argv[2]) : 1, cap = argc > 3 ? atol(argv[3]) : 2000;
   size_t depth = argc > 4 ? atoi(argv[4]) : 5; DMAX = argc > 5 ? atoi(argv[5]) : 2;
   const char *hashfile = argc > 6 && argv[6][0] != '-' ? argv[6] : nullptr; bool flat_only = argc > 7 && !strcmp(argv[7], "flat");
@@ -385,8 +396,9 @@ int main(int argc, char **argv) {
     for (size_t i = b; i < TAB.size(); i++) { int fe = 0; first_event(TAB[i], fe); if (fe == 2) continue; last_level_total++; if (sel.size() < cap) sel.push_back(i); }
     if (sel.size() - sel_before_last == last_level_total) complete_w = w;
   }
-  int last_w = w - 1;
+  int last_w = w - 1; double t_gen = hx::now_s();
   if (part == 0) {
+    printf("@INFO enumeration took %.1fs, table of %zu machine definitions\n", t_gen - (deadline - (getenv("VERIF_DEADLINE_S") ? atof(getenv("VERIF_DEADLINE_S")) : 600)), TAB.size());
     printf("@INFO machines: %zu selected; weights 1..%zu complete; weight %d: %zu of %zu canonical machines (nesting depth <= %d)\n", sel.size(), complete_w, last_w, sel.size() - sel_before_last, last_level_total, DMAX);
     printf("@CAP machine cap %zu: every canonical machine of weight <= %zu is covered; of weight %d only %zu of %zu (interleaved over all structural shapes); heavier machines (<=3 states, <=3 routes/state, depth <= %d) are not enumerated\n",
            cap, complete_w, last_w, sel.size() - sel_before_last, last_level_total, DMAX);
